@@ -1,5 +1,6 @@
 import PlumpyModel.PM.Proof10
 import PlumpyModel.PM.LProof13
+import PlumpyModel.PM.LProof18
 /-!
 # C02 — all reports of a terminated process's outcome agree
 
@@ -182,6 +183,9 @@ end
 Model: `PMF.L` (lean/PlumpyModel/PM/Listener.lean; see the section of the same name in `Props/C04.lean`).  The exiting / entering
 callbacks run exactly where the invariant is temporarily broken (the future is resolved by `on_entering` before the new state object
 is assigned); the requests made there are deferred or refused and change nothing the reports of the outcome depend on.
+"step_until_terminated() returns" holds with listeners as well (`C02_listener_stepper_returns` and the readable parts of the
+lifted linking invariant, `PM/LProof16..18.lean`), and the `while` loop of the closing part of a step ends by itself
+(`C02_listener_closing_loop_ends`).
 -/
 namespace L
 
@@ -204,6 +208,57 @@ theorem C02_listener_nothing_reported_while_live (P : Prog) (nf : Nat) (plan : P
     (c.fut = .pending ∨ c.fut = .cancelled) ∧ c.closed = false ∧ c.cleanups = 0 ∧ termCount c.notif = 0 :=
   (runL_inv2 P (initL nf plan) evs (inv2_init nf)).live hl
 
+/-- **step_until_terminated() returns, with listeners**: for every program, every plan of `pause()` / `play()` / `kill()` calls
+made from inside notifications (listeners, state-event callbacks; during transitions, during the enactment of other requests,
+during or between steps) and every history of events, if the configuration reached is terminated then finitely many further
+wake-ups of the stepping task (`ticksL P n`) bring its program counter to `done`: whoever awaits `step_until_terminated()` is
+released, and the task ends normally, not by an exception.  (The linking invariant `Inv10` of `PM/Proof10.lean` lifted to the
+model with listeners: `PM/LProof16–18.lean`, `runL_inv10L`.) -/
+theorem C02_listener_stepper_returns (P : Prog) (nf : Nat) (plan : Plan) (evs : List Ev)
+    (ht : terminal (runL P (initL nf plan) evs).c.st.label = true) :
+    ∃ n, (ticksL P n (runL P (initL nf plan) evs)).c.pc = .done :=
+  stepperL_returns P nf plan evs ht
+
+/-- **the stepping task never crashes, with listeners**: in no configuration reached by `runL` (any plan, terminated or not) has
+the coroutine of `step_until_terminated()` ended with an exception — neither a step on a closed process nor an interrupt action
+run a second time (F22 was exactly that: a `kill()` from a listener during the transition performed by a pause action). -/
+theorem C02_listener_stepper_never_crashes (P : Prog) (nf : Nat) (plan : Plan) (evs : List Ev) (e : Exc) :
+    (runL P (initL nf plan) evs).c.pc ≠ .crashed e :=
+  (runL_inv10L P (initL nf plan) evs (inv10L_init nf plan)).s.nocrash e
+
+/-- **a stepper awaiting a waiting future will be woken, with listeners**: the future exists and the current state object is the
+WAITING state that owns it, or it is already completed — also when the state was left by a `kill()` a listener issued. -/
+theorem C02_listener_waiting_stepper_is_released (P : Prog) (nf : Nat) (plan : Plan) (evs : List Ev) (wf : Nat)
+    (hpc : (runL P (initL nf plan) evs).c.pc = .awaitWaiting wf) :
+    let c := (runL P (initL nf plan) evs).c
+    wf < c.wfs.length ∧ ((∃ fn wk aw, c.st = .waiting fn wf wk aw) ∨ c.wfs[wf]? ≠ some .pending) :=
+  (runL_inv10L P (initL nf plan) evs (inv10L_init nf plan)).s.aw wf hpc
+
+/-- **a stepper awaiting a pause future will be woken, with listeners**: the future exists and is the process's current pause
+future or is released — whatever sequence of `pause()` / `play()` listeners of `on_process_paused` / `on_process_played` issued —
+and if the process has terminated, the current pause future is released. -/
+theorem C02_listener_paused_stepper_is_released (P : Prog) (nf : Nat) (plan : Plan) (evs : List Ev) (pf : Nat)
+    (hpc : (runL P (initL nf plan) evs).c.pc = .awaitPaused pf) :
+    let c := (runL P (initL nf plan) evs).c
+    pf < c.pfs.length ∧ (c.paused = some pf ∨ c.pfs[pf]? = some true) ∧
+    (terminal c.st.label = true → c.pfs[pf]? = some true ∧ ∀ pf', c.paused = some pf' → c.pfs[pf']? = some true) := by
+  intro c
+  have h := runL_inv10L P (initL nf plan) evs (inv10L_init nf plan)
+  obtain ⟨h1, h2⟩ := h.s.ap pf hpc
+  refine ⟨h1, h2, fun ht => ⟨?_, h.s.tp pf hpc ht⟩⟩
+  rcases h2 with hp | hp
+  · exact h.s.tp pf hpc ht pf hp
+  · exact hp
+
+/-- **the closing part of a step returns**: the `while` loop of `Process.step()` (enact what a listener requested while the
+previous request was being enacted) is never stopped by the model's bound: with ANY number of iterations above the number of
+plan entries left it computes what it computes with `plan.length + 1` (the bound `dispatchL` uses), and it stops because nothing
+is left to enact (`Quiet`: the slot is empty, or its action done, or the process terminated) — every iteration that leaves a
+pending request behind has used up a plan entry. -/
+theorem C02_listener_closing_loop_ends (n : Nat) (l : LCfg) (m : Nat) (hm : l.plan.length < m) :
+    enactLoop (fireN n) m l = enactLoop (fireN n) (l.plan.length + 1) l ∧ Quiet (enactLoop (fireN n) m l) :=
+  ⟨enactLoop_fuel (fireN_adv n) l m hm, enactLoop_quiet (fireN_adv n) m l hm⟩
+
 -- non-vacuity: a kill from the entering phase of the transition into FINISHED; a kill from `on_process_running`
 section
 private def one : Prog := fun _ _ _ _ => ⟨0, .ret (.stop (some 3) true)⟩
@@ -212,6 +267,19 @@ example : (runL one (initL 0 [(.entering, 2, .kill)]) [.tick]).c.st = .finished 
 example : (runL one (initL 0 [(.running, 1, .kill)]) [.tick]).c.st = .killed ∧
     (runL one (initL 0 [(.running, 1, .kill)]) [.tick]).c.fut = .exc .killedErr ∧
     (runL one (initL 0 [(.running, 1, .kill)]) [.tick]).c.cleanups = 1 := by decide +kernel
+-- `C02_listener_stepper_returns` / `…_paused_stepper_is_released`, hypotheses satisfied non-trivially: the process is paused
+-- between steps, the stepping task blocks on pause future 0; `play()` notifies `on_process_played`, whose listener kills: the
+-- process is KILLED while the task is still suspended on pause future 0 (released); one wake-up ends it
+private def async1' : Prog := fun _ _ _ _ => ⟨1, .ret (.stop (some 3) true)⟩
+example : let l := runL async1' (initL 0 [(.played, 1, .kill)]) [.pause, .tick, .play]
+    l.c.st = .killed ∧ l.c.pc = .awaitPaused 0 ∧ l.c.pfs[0]? = some true ∧ (ticksL async1' 1 l).c.pc = .done := by decide +kernel
+-- a listener of `on_process_paused` plays, the listener of `on_process_played` pauses again and a third one kills, all inside
+-- the enactment of a pause requested during a step: three iterations of the `while` loop, the step ends KILLED, the task is done
+private def async2 : Prog := fun fn _ _ _ => if fn = 0 then ⟨1, .ret (.cont 1 [] [])⟩ else ⟨1, .ret (.stop (some 3) true)⟩
+example : let l := runL async2 (initL 0 [(.paused, 1, .play), (.played, 1, .pause), (.paused, 2, .kill)]) [.tick, .pause, .tick]
+    l.c.st = .killed ∧ l.c.pc = .done ∧ l.c.interrupt = none ∧ l.plan = [] ∧
+    l.c.notif = [.killed, .paused, .played, .paused, .running, .running] ∧ l.c.paused = some 1 ∧ l.c.pfs[1]? = some true := by
+  decide +kernel
 end
 
 end L
